@@ -184,5 +184,9 @@ def run(ctx, facts):
     from . import C07
     C07.ctor_sib(ctx, facts)
     C04.regvalue_rule(ctx, facts)
+    C04.spacing_rule(ctx, facts)
+    ctx.rule("RESETBEFORE", C04.RULES["RESETBEFORE"] + " (the same item offered twice must visit the slots in the same order, or a repeated item raises registers the first occurrence did not and the estimate counts repetitions)")
+    C13.require_verified_reset(ctx, facts, [C13.FY], "RESETBEFORE")
+    C04._resetbefore(ctx, facts, C04.SS + "sketch")
     ctx.rule("EXIT", C04.RULES["EXIT"])
     C04._exit_setsketch(ctx, facts)
